@@ -67,6 +67,15 @@ def cases(tier, seed, ctx=None):
                     to = frm
                 yield ("copier", [c, 0, bs, frm, to, NOFAIL, [START] + [TURN] * (n // bs + 3), [14, 0]], "ra-multiblock")
     # sequential: all partitions, stop at every point
+    # a random-access source that hands out short reads (a record-by-record device): cap < block size
+    for n in (5, 12, 40):
+        c = content(n)
+        for bs in (4, 8, 64):
+            for cap in (1, 3, bs - 1, bs):
+                if cap < 1:
+                    continue
+                for frm, to in ((0, -1), (2, -1), (1, n - 2), (0, n + 1), (3, 3)):
+                    yield ("copier", [c, 0, bs, frm, to, NOFAIL + [cap], [START] + [TURN] * (n + 3), [14, 0]], "ra-short-reads")
     from vlib import all_partitions
     for n in range(0, (5 if tier == "quick" else 7)):
         c = content(n)
